@@ -116,8 +116,7 @@ func (p c18) Run(c *core.Ctx, idx int) {
 	cmp := dp.CmpOpts{}
 	if storeKind > 0 {
 		gm = dp.GoModes[storeKind-1]
-		o.Types, o.KeyTypes = dp.GoTypes(gm), dp.GoKeyTypes(gm)
-		o.CompoundKeys = gm.Shape == "struct"
+		dp.GoGen(&o, gm)
 		// a struct field cannot say "unset", so case detection has nothing to go by (IgnoreEmpty would make zero-valued keys unreadable)
 		o.Choices = o.Choices && gm.Shape == "map"
 		o.Defaults = false
